@@ -206,6 +206,45 @@ def scn_range(T, case):
     T.prove("C05.check_range.accepts_only_windows_inside_the_ensemble", valid)
 
 
+# ---------------------------------------------------------------------------------- the window check of the constructor, with a history
+def cases_ctor_history(tier):
+    for method in ("sort-objective", "sort-constraint"):
+        for nA, nB, first, last in ((5, 3, 2, 4), (5, 3, 1, 2), (4, 2, 1, 3), (3, 3, 0, 2), (6, 4, 4, 5)):
+            yield "%s/first-%d-realizations-then-%d/window=%d-%d" % (method, nA, nB, first, last), {"method": method, "nA": nA, "nB": nB, "first": first, "last": last}
+
+
+def scn_ctor_history(T, case):
+    """'Windows outside the ensemble are rejected at configuration time' - by the real constructor, for EVERY configuration: a filter
+    with the same options has been made for a larger ensemble before (an earlier step of the plan, another run in the process);
+    the constructor of the second one still checks the window against ITS ensemble."""
+    from ropt.exceptions import ConfigError
+
+    if T.symbolic:
+        sh = T.shadow([M])
+        cls = T.under_contract(sh, M, "DefaultRealizationFilter")
+        T.under_contract(sh, M, "DefaultRealizationFilter.__init__")
+        T.under_contract(sh, M, "DefaultRealizationFilter._check_range")
+    else:
+        cls = T.func(M, "DefaultRealizationFilter")
+    sort = [0] if case["method"] == "sort-objective" else 0
+
+    def config(n):
+        return types.SimpleNamespace(realization_filters=(types.SimpleNamespace(method=case["method"], options={"sort": sort, "first": case["first"], "last": case["last"]}),),
+                                     realizations=types.SimpleNamespace(weights=T.const(np.ones(n) / n)), objectives=types.SimpleNamespace(weights=T.const(np.ones(1))),
+                                     nonlinear_constraints=types.SimpleNamespace(lower_bounds=T.const(np.zeros(1)), upper_bounds=T.const(np.ones(1))))
+
+    outcomes = []
+    for n in (case["nA"], case["nB"], case["nA"]):
+        try:
+            flt = cls(config(n), 0)
+            outcomes.append((n, True, flt._filter_options.first == case["first"] and flt._filter_options.last == case["last"]))
+        except ConfigError:
+            outcomes.append((n, False, True))
+    for k, (n, accepted, same) in enumerate(outcomes):
+        T.prove("C05.constructor.window_is_checked_against_the_ensemble_of_this_configuration_whatever_was_constructed_before",
+                accepted == (0 <= case["first"] <= case["last"] < n) and same, "construction %d for %d realizations: accepted=%s" % (k + 1, n, accepted))
+
+
 # ---------------------------------------------------------------------------------- row mapping in the ensemble evaluator
 class _AbstractFilter:
     def __init__(self, w, log, idx):
@@ -292,6 +331,7 @@ SCENARIOS = [
     Scenario("sort_and_select_every_window_of_every_size_bounded", scn_select_sweep, cases_select_sweep, {"quick": 1, "thorough": 3}),
     Scenario("filter", scn_filter, cases_filter, {"quick": 10, "thorough": 60}),
     Scenario("check_range", scn_range, cases_range, {"quick": 1, "thorough": 1}),
+    Scenario("constructor_window_check_with_a_history", scn_ctor_history, cases_ctor_history, {"quick": 1, "thorough": 2}),
     Scenario("filter_rows", scn_rows, cases_rows, {"quick": 3, "thorough": 20}),
     Scenario("filter_inside_the_evaluator", scn_chain, cases_chain, {"quick": 3, "thorough": 10}),
     Scenario("plan_steps_hand_over", scn_steps, cases_steps, {"quick": 1, "thorough": 2}),
